@@ -28,7 +28,7 @@ class ExecCall(ExecExpr):
                 and f.value.func.id == "super":
             yield from self.super_call(node, st)
             return
-        if isinstance(f, ast.Name) and self.spec_mode and f.id in ("forall", "exists", "forall_int", "exists_int", "old", "let", "implies"):
+        if isinstance(f, ast.Name) and self.spec_mode and f.id in ("forall", "exists", "forall_int", "exists_int", "old", "let", "implies", "forall_obj"):
             yield from self.spec_special(f.id, node, st)
             return
         if isinstance(f, ast.Name) and f.id in ("any", "all") and len(node.args) == 1 and \
@@ -490,6 +490,22 @@ class ExecCall(ExecExpr):
             # implies(a, b) is (not a) or b, evaluated with short-circuit narrowing
             n = ast.BoolOp(op=ast.Or(), values=[ast.UnaryOp(op=ast.Not(), operand=node.args[0]), node.args[1]])
             yield from self.eval(ast.copy_location(n, node), st)
+            return
+        if name == "forall_obj":
+            clsv = self.eval1(node.args[0], st)
+            lam = node.args[1]
+            r = z3.Const(w.fresh_name("o"), w.Ref)
+            s = st.fork()
+            rng = w.isinstance_term(r, clsv.qual)
+            s.assume(rng)
+            base = len(s.pc)
+            s.env = dict(st.env)
+            s.env[lam.args.args[0].arg] = V(("ref", w.short_name(clsv.qual)), r, clsv.qual)
+            body = self.truth(self.eval1(lam.body, s))
+            extra = s.pc[base:]
+            if extra:
+                st.assume(z3.ForAll([r], z3.Implies(rng, z3.And(extra))))
+            yield st, V("bool", z3.ForAll([r], z3.Implies(rng, body)))
             return
         if name == "let":
             # let(value, lambda x: body)
